@@ -196,8 +196,35 @@ def lemma_selftest(check, tier):
     check.note(f"column fold lemma schemas validated on {n_eval} (string, range) cases of the executable model")
 
 
+def derived(check, tier, seed):
+    """width / width_at_offset / width_aware_slice on derived values (chains of operations; caches partly filled on the way)"""
+    from bounded.derived import derived_values
+    from cwcwidth import wcswidth as _wcs
+    n = 5000 if tier == "thorough" else 600
+    s = Suite(check, "C10.derived", f"{n} values at the end of chains of <= 4 public operations: width, width_at_offset and every column range "
+              "0<=a<=b<=width+2 against the column model", bound="chains <= 4 operations", exhaustive=False)
+    for k, v in enumerate(derived_values(seed + 3, n)):
+        txt = v.s
+        if _wcs(txt) < 0:
+            continue            # unmeasurable text (control characters): outside the quantifier
+        s.case(("d", k), sample=repr(v) if k < 2 else None)
+        d = width_case(v, txt)
+        if d:
+            s.fail("C10.width", dict(value=repr(v), runs=str(v.chunks), kind="derived"), d)
+            continue
+        w = sum(wcwidth(c) for c in txt)
+        for a in range(0, w + 3):
+            for b in range(a, w + 3):
+                d = cut_case(v, a, b)
+                if d:
+                    s.fail("C10.width_aware_slice", dict(value=repr(v), runs=str(v.chunks), a=a, b=b, kind="derived"), d)
+                    break
+    s.done()
+
+
 def run(check, tier, seed):
     lemma_selftest(check, tier)
     for c in CONTRACTS:
         verify(c, tier, check)
     bounded(check, tier)
+    derived(check, tier, seed)
